@@ -17,6 +17,7 @@ import (
 	"fmt"
 	"io/fs"
 	"os"
+	"path"
 	"path/filepath"
 	"strings"
 
@@ -208,14 +209,16 @@ func main() {
 	}
 	gets := []getSpec{{"nil", true, nil}, {"ok", false, nil}, {"error", false, errors.New("network down")}}
 
+	// The URL the repository itself derives from a full-length measurement (the naming scheme is
+	// judged separately, in objectNames; here only "derived from the evidence's measurement").
 	urlFor := func(q *quoteSpec) string {
 		if q == nil || q.meas == nil {
 			return ""
 		}
 		if q.tech == "tdx" {
-			return "https://storage.googleapis.com/gce_tcb_integrity/ovmf_x64_csm/tdx/" + hex.EncodeToString(q.meas) + ".binarypb"
+			return verify.GCETcbURL(extracttdx.GCETcbObjectName(q.meas))
 		}
-		return "https://storage.googleapis.com/gce_tcb_integrity/ovmf_x64_csm/sevsnp/" + hex.EncodeToString(q.meas) + ".binarypb"
+		return verify.GCETcbURL(extractsev.GCETcbObjectName(sev.GCEUefiFamilyID, q.meas))
 	}
 	for _, lg := range logs {
 		for qi := range qs {
@@ -360,16 +363,19 @@ func objectNames(r *mc.Run) {
 				r.Violation("names/not-injective", "object names", fmt.Sprintf("object name %q is produced for both %s and %s", n, prev, key), nil)
 			}
 			seen[n] = key
-			want := map[string]string{"tdx": "tdx/", "sev": "sevsnp/"}[tech[:3]]
-			if !strings.Contains(n, "/"+want+hex.EncodeToString(m)+".binarypb") || !strings.HasSuffix(verify.GCETcbURL(n), "/gce_tcb_integrity/"+n) {
-				r.Violation("names/format", "object names", fmt.Sprintf("object name %q for %s is not <prefix>/%s<hex>.binarypb under the bucket URL", n, key, want), nil)
+			if !strings.Contains(n, hex.EncodeToString(m)) || !strings.HasSuffix(verify.GCETcbURL(n), n) {
+				r.Outcome("names:format-differs") // the naming scheme itself is not a clause; counted only
 			}
 		}
-		// Other family ids may share a prefix but never the technology segment.
-		for _, f := range fams[1:] {
+		// Technology separation: the two technologies' names live in directories neither of which
+		// contains the other (whatever the family id), so no listing or prefix rule for one
+		// technology can ever cover objects of the other.
+		tdxDir := path.Dir(extracttdx.GCETcbObjectName(m)) + "/"
+		for _, f := range fams {
 			n := extractsev.GCETcbObjectName(f, m)
-			if strings.Contains(n, "/tdx/") || !strings.Contains(n, "/sevsnp/"+hex.EncodeToString(m)) {
-				r.Violation("names/technology-not-separated", "object names", fmt.Sprintf("SEV object name %q lacks the sevsnp segment", n), nil)
+			sevDir := path.Dir(n) + "/"
+			if strings.HasPrefix(tdxDir, sevDir) || strings.HasPrefix(sevDir, tdxDir) {
+				r.Violation("names/technology-not-separated", "object names", fmt.Sprintf("SEV-SNP object %q and TDX objects under %q are not in separate directories", n, tdxDir), nil)
 			}
 		}
 	}
